@@ -272,9 +272,9 @@ class Interp:
         if getattr(fn, '__pyvc_native__', False) or _is_proxy_method(fn) or getattr(type(fn), '__pyvc_stub__', False):
             return fn(*args, **kwargs)
         if isinstance(getattr(fn, '__self__', None), list) and not isinstance(fn, type) and fn.__name__ in _LIST_NATIVE:
-            return fn(*args, **kwargs)
+            return self._native_container_call(fn, args, kwargs)
         if isinstance(getattr(fn, '__self__', None), dict) and not isinstance(fn, type) and fn.__name__ in _DICT_NATIVE and deep_concrete(args[:1]):
-            return fn(*args, **kwargs)
+            return self._native_container_call(fn, args, kwargs)
         if deep_concrete(args) and deep_concrete(kwargs):
             try:
                 return fn(*args, **kwargs)
@@ -294,6 +294,15 @@ class Interp:
             if hasattr(lifted, name):
                 return getattr(lifted, name)(*args, **kwargs)
         raise Unreached('call of %r with symbolic arguments has no model' % (fn,))
+
+    @staticmethod
+    def _native_container_call(fn: Any, args: List[Any], kwargs: Dict[str, Any]) -> Any:
+        """A list / dict method run natively: its lookup errors (d.pop(absent), l.remove(absent), [].pop() ...) are
+        exceptions of the interpreted program, not crashes of the checker."""
+        try:
+            return fn(*args, **kwargs)
+        except (KeyError, IndexError, ValueError, TypeError) as e:
+            raise PyRaise(ExcVal(type(e), e.args, real=e))
 
     def str_format(self, fmt: str, args: List[Any], kwargs: Dict[str, Any]) -> Any:
         """'...{}...{0}...{name}...'.format(*args, **kwargs) with plain replacement fields (no conversion, no format spec)."""
@@ -1462,6 +1471,11 @@ class Interp:
     def contains(self, container: Any, item: Any) -> Any:
         if hasattr(container, '__pyvc_contains__'):
             return container.__pyvc_contains__(item)
+        if isinstance(container, range) and isinstance(item, SInt):
+            # x in range(a, b, step)  <=>  a <= x < b (or b < x <= a) and (x - a) % step == 0
+            a, b, st = container.start, container.stop, container.step
+            inside = And(item >= a, item < b) if st > 0 else And(item <= a, item > b)
+            return inside if abs(st) == 1 else And(inside, core.mk_bool((item.t - a) % abs(st) == 0))
         if isinstance(container, SStr):
             return container.contains(item)
         if isinstance(container, (str, bytes)) and isinstance(item, SStr):
